@@ -151,6 +151,15 @@ func Main(prop, tier string, only int) int {
 			jobs = append(jobs, job{"C17R(" + sc.P.String() + ")", vsched.Config{Bound: sc.Bound, FireBudget: sc.P.Fire, Deadline: dl, Races: true, StateKeys: sc.Keys,
 				Body: c17Body(sc.P), Check: c17Check}})
 		}
+		{
+			// the whole UPF over the real gtp5g driver and periodic server, shutting down; and datagrams through the
+			// real socket (receiver goroutine vs. loop)
+			ap := c17AppParams{Peer: true, Ticks: 1}
+			jobs = append(jobs, job{"C17R(" + ap.String() + ")", vsched.Config{Bound: 1, TickBudget: ap.Ticks, Deadline: dl, Races: true, StateKeys: true,
+				Body: c17AppBody(ap), Check: c17AppCheck}})
+			ing := c17IngressParams{N: 2}
+			jobs = append(jobs, job{"C17R(" + ing.String() + ")", vsched.Config{Bound: -1, Deadline: dl, Races: true, StateKeys: true, Body: c17IngressBody(ing), Check: c17IngressCheck}})
+		}
 		for _, sc := range c15Scenarios("quick") {
 			jobs = append(jobs, job{"C17R-perio(" + sc.P.String() + ")", vsched.Config{Bound: 2, TickBudget: sc.P.Ticks, Deadline: dl, Races: true, StateKeys: true,
 				Body: c15Body(sc.P), Check: c15Check}})
